@@ -29,6 +29,7 @@ type aliasMutation struct {
 // and calls of the in-place library functions (sorting, compacting, copy, clear, delete) on it.
 func (w *World) aliasMutations(roots []*ssa.Function, seed func(ssa.Value) bool) []aliasMutation {
 	tainted := map[ssa.Value]bool{}
+	short := map[ssa.Value]bool{} // views of the shared storage that end before its last element: appending overwrites what follows
 	fns := map[*ssa.Function]bool{}
 	var order []*ssa.Function
 	addFn := func(f *ssa.Function) {
@@ -51,6 +52,12 @@ func (w *World) aliasMutations(roots []*ssa.Function, seed func(ssa.Value) bool)
 	mark := func(v ssa.Value) {
 		if v != nil && !tainted[v] {
 			tainted[v] = true
+			changed = true
+		}
+	}
+	markShort := func(v ssa.Value) {
+		if v != nil && !short[v] {
+			short[v] = true
 			changed = true
 		}
 	}
@@ -94,6 +101,9 @@ func (w *World) aliasMutations(roots []*ssa.Function, seed func(ssa.Value) bool)
 					case *ssa.Slice:
 						if tainted[x.X] {
 							mark(x)
+							if x.High != nil || short[x.X] {
+								markShort(x)
+							}
 						}
 					case *ssa.ChangeType:
 						if tainted[x.X] {
@@ -120,6 +130,9 @@ func (w *World) aliasMutations(roots []*ssa.Function, seed func(ssa.Value) bool)
 							if tainted[e] {
 								mark(x)
 							}
+							if short[e] {
+								markShort(x)
+							}
 						}
 					case *ssa.Lookup:
 						if tainted[x.X] && refKind(x.Type()) {
@@ -127,6 +140,12 @@ func (w *World) aliasMutations(roots []*ssa.Function, seed func(ssa.Value) bool)
 						}
 					case *ssa.Call:
 						cm := x.Common()
+						if b, isB := cm.Value.(*ssa.Builtin); isB && b.Name() == "append" && len(cm.Args) > 0 && short[cm.Args[0]] {
+							// the result of appending onto such a view is (while it fits) the same storage, one element longer
+							mark(x)
+							markShort(x)
+							continue
+						}
 						if cm.IsInvoke() {
 							// a getter of the shared object that hands out a part of it
 							if tainted[cm.Value] && len(cm.Args) == 0 && (refKind(x.Type()) || isTuple(x.Type())) {
@@ -214,10 +233,8 @@ func (w *World) aliasMutations(roots []*ssa.Function, seed func(ssa.Value) bool)
 					if k, ok := inPlaceMutators[name]; ok && k < len(cm.Args) && tainted[cm.Args[k]] {
 						out = append(out, aliasMutation{ins, f, name + " rearranges it in place"})
 					}
-					if name == "builtin:append" && len(cm.Args) > 0 {
-						if sl, ok := cm.Args[0].(*ssa.Slice); ok && tainted[sl.X] && sl.High != nil {
-							out = append(out, aliasMutation{ins, f, "append onto a shortened view overwrites its elements"})
-						}
+					if name == "builtin:append" && len(cm.Args) > 0 && short[cm.Args[0]] {
+						out = append(out, aliasMutation{ins, f, "append onto a shortened view overwrites the elements behind it"})
 					}
 				}
 			}
